@@ -306,7 +306,7 @@ func PanicSite(stack string, pkgMarkers ...string) string {
 		if !hit {
 			continue
 		}
-		fn := l
+		fn := stripTypeArgs(l)
 		if i := strings.Index(fn, " "); i > 0 {
 			fn = fn[:i]
 		}
@@ -349,4 +349,28 @@ func PanicClass(v string) string {
 		v = v[:140]
 	}
 	return v
+}
+
+// stripTypeArgs replaces every bracketed type-argument list by [...] (they may contain spaces and parentheses).
+func stripTypeArgs(s string) string {
+	var b strings.Builder
+	depth := 0
+	for i := 0; i < len(s); i++ {
+		switch s[i] {
+		case '[':
+			if depth == 0 {
+				b.WriteString("[...]")
+			}
+			depth++
+		case ']':
+			if depth > 0 {
+				depth--
+			}
+		default:
+			if depth == 0 {
+				b.WriteByte(s[i])
+			}
+		}
+	}
+	return b.String()
 }
